@@ -82,6 +82,19 @@ fn run<const N: usize>(mut m: ArrayMap<u32, N>, op: &Sx) -> Sx {
                 tag("ok", s)
             })
         }
+        "drainrev" => {
+            let lo = arg(1).unwrap();
+            let hi = items.get(2).and_then(|x| x.nat());
+            guarded(move || {
+                let vals: Vec<u32> = match hi {
+                    Some(h) => m.drain(lo..h).rev().collect(),
+                    None => m.drain(lo..).rev().collect(),
+                };
+                let mut s = vec![tag("ret", vec![nats(&vals)])];
+                s.extend(state_sx(&m));
+                tag("ok", s)
+            })
+        }
         "extend" => {
             let vs = items[1].nats().unwrap();
             guarded(move || {
